@@ -28,6 +28,7 @@ Step ==
        /\ Check("C08.stop-times-ascending", c, l, All(LAMBDA u : C08_StopTimesAscending(u.res)))
        /\ Check("C08.shapes-by-id", c, l, All(LAMBDA u : C08_ShapesById(u.res)))
        /\ Check("C08.shape-points-by-sequence", c, l, All(LAMBDA u : C08_ShapePointsBySequence(feed, u.res)))
+       /\ Check("C08.exception-dates-keep-file-order", c, l, All(LAMBDA u : C08_ExceptionDatesKeepFileOrder(feed, u.res)))
        /\ Check("C08.frequencies-keep-file-order", c, l, All(LAMBDA u : C08_FrequenciesKeepFileOrder(feed, u.res)))
        /\ Check("C08.file-order-kept", c, l, All(LAMBDA u : C08_FileOrderKept(feed, u.res, u.accepted)))
        /\ Check("C09.warnings-describe-the-row", c, l, All(LAMBDA u : C09_WarningsDescribeTheRow(feed, u.res, u.warnOk)))
@@ -48,7 +49,7 @@ Step ==
        /\ Check("relation-base-parses", c, l, (rel # "" /\ rel # "C01.wellformed" /\ Len(e.baseRun) = 1) => (e.baseRun[1].err = "" /\ Ok(1)))
        (* not a clause of any listed property: error exactly when a required file is missing; counted as drift *)
        /\ drift' = drift + (IF Ok(1) /\ e.runs[1].res = Result(ParseFeed(feed, e.opts.inherit)) THEN 0 ELSE IF Ok(1) THEN 1 ELSE 0)
-                         + (IF (Outcome(feed) = "result") = Ok(1) THEN 0 ELSE 1)
+                         + (IF ((Outcome(feed) = "result") /\ e.empty = <<>>) = Ok(1) THEN 0 ELSE 1)
     /\ nRel' = nRel + (IF Trace[l].relation \in {"C08.permutation", "C09.inert", "C10.equal", "C10.inherit"}
                               /\ Len(Trace[l].baseRun) = 1 /\ Trace[l].baseRun[1].err = "" /\ Trace[l].runs[1].err = "" THEN 1 ELSE 0)
     /\ l' = l + 1
